@@ -136,7 +136,11 @@ class InitialOrbitDetermination(ABC):
         Returns:
             ``bool``: whether or not obs are from the same pass
         """
-        sma = getSemiMajorAxis(norm(ob1_eci[:3]), norm(ob1_eci[3:]))
+        if len(ob1_eci) > 3:
+            sma = getSemiMajorAxis(norm(ob1_eci[:3]), norm(ob1_eci[3:]))
+        else:
+            # [NOTE]: A position-only vector has no velocity, circular orbit assumed as first approx.
+            sma = norm(ob1_eci[:3])
         period = getPeriod(sma)
         transit_time = (ob2_jdate - ob1_jdate) * DAYS2SEC
         if transit_time >= period:
